@@ -154,6 +154,9 @@ def run(w: World, rep: Report):
     rep.check('C06.R2', 'functions.OP_EVAL|no-write-back', not wb, line=wb[0].line if wb else ev.node.lineno,
               file=rel, why='' if not wb else 'OP_EVAL writes the caller\'s definitions/flags')
 
+    # ---- R6 DEF binds, CALL runs the binding -----------------------------------
+    _def_call(w, rep)
+
     # ---- R3 table agreement ----------------------------------------------------
     _table_agreement(w, rep)
 
@@ -165,6 +168,66 @@ def run(w: World, rep: Report):
         'values and is not decided.')
     rep.assumptions += ['handlers are reached only through run_tape dispatch or the explicit '
                         'handler->handler calls seen in the call graph']
+
+
+def _def_call(w: World, rep: Report):
+    """DEF (re)binds its handle to the body it just read on every normal path; CALL runs the binding
+    named by its operand.  (A later script's DEF must win over an earlier script's: C01/C05 rely on it.)"""
+    rel = 'tapescript/functions.py'
+    rep.rule('C06.R6', 'OP_DEF stores the sub-tape built from the body it read under the handle it read, '
+             'unconditionally, on every normal path; OP_CALL runs the definition its operand names', floor=3)
+    d = w.handler_for('OP_DEF')
+    cfg = w.cfg(d)
+    kinds = w.kinds(d)
+    own = d.params[0]
+    stores, weak = [], []
+    for n in cfg.nodes:
+        for e in node_events(n):
+            if e[0] == 'store' and isinstance(e[1], ast.Subscript) and \
+                    kinds.path(kinds.of(e[1].value, n)) == f'{own}.definitions':
+                stores.append((n, e[1], e[2] if len(e) > 2 else None))
+            if e[0] == 'call' and isinstance(e[1].func, ast.Attribute) and \
+                    kinds.path(kinds.of(e[1].func.value, n)) == f'{own}.definitions' and \
+                    e[1].func.attr in ('setdefault', 'update', 'pop', 'clear', 'popitem', '__setitem__'):
+                weak.append((n, e[1].func.attr))
+    ok = bool(stores) and cfg.must_pass(cfg.entry, cfg.exit, through_nodes=[s[0] for s in stores])
+    why = ''
+    if weak:
+        ok = False
+        why = (f'definitions are changed with .{weak[0][1]}() (line {weak[0][0].line}): an existing binding of the '
+               f'handle survives or other bindings change - a DEF in a later script no longer replaces an earlier one')
+    elif not ok:
+        why = ('a normal path through OP_DEF does not store the new definition (conditional or missing store): the '
+               'instruction is silently ignored on that path')
+    rep.check('C06.R6', 'functions.OP_DEF|binds-on-every-path', ok, line=d.node.lineno, file=rel, why=why)
+    for n, tgt, val in stores:
+        kk = kinds.of(tgt.slice, n)
+        ok = all(l.tag == 'tape_read' and kinds.path(l.tape) == own for l in kk.leaves())
+        rep.check('C06.R6', 'functions.OP_DEF|key-is-handle-operand', ok, line=n.line, file=rel,
+                  why='' if ok else 'the key stored under is not the handle byte read from the tape')
+        if val is not None:
+            kv = kinds.of(val, n)
+            lv = kv.leaves()
+            ok = bool(lv) and all(l.tag == 'new' and l.cls == 'Tape' and l.args and
+                                  all(x.tag == 'tape_read' and kinds.path(x.tape) == own for x in l.args[0].leaves())
+                                  for l in lv)
+            rep.check('C06.R6', 'functions.OP_DEF|value-is-new-subtape-of-body', ok, line=n.line, file=rel,
+                      why='' if ok else 'the stored definition is not a fresh Tape over the body bytes just read '
+                      '(an older binding or another object is kept instead)')
+    c = w.handler_for('OP_CALL')
+    cfg = w.cfg(c)
+    kinds = w.kinds(c)
+    own = c.params[0]
+    runs = cfg.nodes_with_call(lambda x: isinstance(x.func, ast.Name) and x.func.id == 'run_tape')
+    if not runs:
+        raise AnalysisError('OP_CALL no longer calls run_tape')
+    for n, call in runs:
+        kt = kinds.of(call.args[0], n)
+        ok = all(l.tag == 'index' and kinds.path(l.src) == f'{own}.definitions' and
+                 all(x.tag == 'tape_read' and kinds.path(x.tape) == own for x in l.index.leaves())
+                 for l in kt.leaves())
+        rep.check('C06.R6', 'functions.OP_CALL|runs-definition-named-by-operand', ok, line=n.line, file=rel,
+                  why='' if ok else 'the tape run by OP_CALL is not `definitions[<handle read from the tape>]`')
 
 
 def _table_agreement(w: World, rep: Report):
